@@ -182,7 +182,7 @@ pub fn run(ctx: &Ctx) -> usize {
 		violations += 1;
 	}
 	let cfg = cfg_for(ctx);
-	if run_dna(ctx, "dna", ctx.n(6000, 300_000), dna_max(ctx), |dna, counting| check(ctx, &gen_case(dna, &cfg), "dna", counting)).is_some() {
+	if run_dna(ctx, "dna", ctx.n(50_000, 2_500_000), dna_max(ctx), |dna, counting| check(ctx, &gen_case(dna, &cfg), "dna", counting)).is_some() {
 		violations += 1;
 	}
 	violations
